@@ -149,7 +149,17 @@ def source_strings(draw):
     ms, ws = c10.lang_names(lang)
     y, m, d = draw(st.integers(1900, 2100)), draw(st.integers(1, 12)), draw(st.integers(1, 28))
     H, M = draw(st.integers(0, 23)), draw(st.integers(0, 59))
-    form = draw(st.integers(0, 6))
+    form = draw(st.integers(0, 9))
+    if form >= 7:
+        # shapes that the language-specific sanitizers of sanitize_date rewrite (Croatian 'd. m. yyyy. u', Russian 'г.')
+        k = draw(st.integers(0, 3))
+        if k == 0:
+            return "%02d. %02d. %04d. u %02d:%02d" % (d, m, y, H, M), "hr", "generated"
+        if k == 1:
+            return "%d.%d.%d. u %d:%02d" % (d, m, y, H, M), "hr", "generated"
+        if k == 2:
+            return "%d января %d г. в %02d:%02d" % (d, y, H, M), "ru", "generated"
+        return "%02d.%02d.%04d г., %02d:%02d" % (d, m, y, H, M), "ru", "generated"
     if form == 0 and m in ms:
         s = "%d %s %d" % (d, draw(st.sampled_from(ms[m])), y)
     elif form == 1 and m in ms:
